@@ -170,6 +170,9 @@ def c_ref(spec, r, gam, u, sig, ms='published'):
         elif t == 'MS':
             if ms == 'published':
                 out = np.exp(np.sqrt(1.0 + 2.0 * (gam - u)) - 1.0) - 1.0 - gam
+            elif ms == 'original':
+                # Martynov & Sarkisov 1983: g = exp(-u + sqrt(1+2 gamma) - 1)
+                out = np.exp(-u + np.sqrt(1.0 + 2.0 * gam) - 1.0) - 1.0 - gam
             else:
                 out = np.exp(np.sqrt(gam - u + 0.5) - 1.0) - 1.0 - gam
         else:
